@@ -231,6 +231,10 @@ type c42World struct {
 	unrunnable bool
 	events     []string
 	hangKey    string
+	// dupOutlives: the fd through which the form opened a file (or got its
+	// pipe) was redirected again or closed while a duplicate made with >&
+	// was still in place; per the reference the duplicate stays usable
+	dupOutlives bool
 }
 
 func (w *c42World) choice(bit int) bool {
@@ -259,6 +263,25 @@ func c42ParseFd(s string) (int, bool) {
 }
 
 func (w *c42World) redirect(ports map[int]*c42MPort, r c42Redir) *c42Exc {
+	before := c42Fork(ports)
+	exc := w.redirect1(ports, r)
+	// Did the redirection take a file or pipe port away from an fd while a
+	// duplicate of it is still in place (see dupOutlives)?
+	for dst, old := range before {
+		if old == ports[dst] || !(old.kind == c42File || (old.kind == c42Base && old.base >= 3)) {
+			continue
+		}
+		for fd, p := range ports {
+			if p == old && fd != dst && !w.dupOutlives {
+				w.dupOutlives = true
+				w.ev("dup-outlives")
+			}
+		}
+	}
+	return exc
+}
+
+func (w *c42World) redirect1(ports map[int]*c42MPort, r c42Redir) *c42Exc {
 	var dst int
 	if r.dst == "" {
 		if r.op == "<" {
@@ -498,13 +521,14 @@ type c42Outcome struct {
 }
 
 type c42Model struct {
-	allowed    []c42Outcome
-	notJudged  string
-	unrunnable bool
-	class      string
-	lastEvent  string
-	hangKey    string
-	openedBy   map[string]string
+	allowed     []c42Outcome
+	notJudged   string
+	unrunnable  bool
+	class       string
+	lastEvent   string
+	hangKey     string
+	openedBy    map[string]string
+	dupOutlives bool
 }
 
 func c42RunModel(cmd c42Cmd, redirs []c42Redir, mask int) (c42Outcome, *c42World) {
@@ -639,6 +663,7 @@ func c42Expect(cmd c42Cmd, redirs []c42Redir) c42Model {
 			}
 			m.hangKey = w.hangKey
 			m.openedBy = w.openedBy
+			m.dupOutlives = w.dupOutlives
 		}
 		if w.unrunnable {
 			m.unrunnable = true
@@ -885,6 +910,7 @@ func c42OpenScratch(caseDir string) []string {
 
 // See (*c42Worker).run.
 const (
+	c42Batch       = 32
 	c42IdleSeconds = 10
 	c42BusySeconds = 900
 )
@@ -1043,7 +1069,7 @@ func c42ProcState(pid int) (ticks int64, allAsleep bool) {
 	return ticks, allAsleep
 }
 
-// run evaluates one case in the worker. On c42StDied the second result is the
+// recv waits for the answer to the next case handed to the worker. On c42StDied the second result is the
 // worker's stderr, on c42StHang its goroutine dump.
 //
 // Non-termination verdict: the worker has not answered and, in
@@ -1052,11 +1078,7 @@ func c42ProcState(pid int) (ticks int64, allAsleep bool) {
 // can run any more (a worker that is merely slow because the machine is
 // loaded is runnable or accumulates CPU time and is waited for, up to
 // c42BusySeconds).
-func (w *c42Worker) run(src string) (int, string) {
-	if _, err := fmt.Fprintln(w.in, src); err != nil {
-		w.stop(true)
-		return c42StDied, "write to worker failed: " + err.Error() + "\n" + w.stderr.String()
-	}
+func (w *c42Worker) recv() (int, string) {
 	tick := time.NewTicker(time.Second)
 	defer tick.Stop()
 	idle, silent := 0, 0
@@ -1266,128 +1288,203 @@ func TestVerifC42(t *testing.T) {
 			mu.Unlock()
 		}
 
-		runRange := func(from, to int, skipHangs map[string]bool) {
-			c.Parallel(to-from, func(l *vk.Local, i int) {
-				idx := from + i
-				k := cases[idx]
-				src := k.src()
-				m := c42Expect(c42Cmds[k.cmd], k.redirList())
-				if m.unrunnable {
-					c.Add("not_run:reads-from-the-evaluation's-output-port", 1)
-					return
+		type prep struct {
+			idx      int
+			src      string
+			m        c42Model
+			class    string
+			expects  string
+			rejected string
+		}
+		// prepare runs the model for one case; nil = the case is not run.
+		prepare := func(idx int, skipHangs map[string]bool) *prep {
+			k := cases[idx]
+			m := c42Expect(c42Cmds[k.cmd], k.redirList())
+			if m.unrunnable {
+				c.Add("not_run:reads-from-the-evaluation's-output-port", 1)
+				return nil
+			}
+			if skipHangs[m.hangKey] {
+				c.Add("not_run:same-class-as-an-observed-hang", 1)
+				return nil
+			}
+			p := &prep{idx: idx, src: k.src(), m: m, class: fmt.Sprintf("%d|%s", k.cmd, m.class)}
+			p.expects = "the model expects " + c42Show(m.allowed)
+			if m.notJudged != "" {
+				p.expects = "the outcome is not judged (" + m.notJudged + "), but it must not crash or hang"
+			}
+			// rejected != "": the model says one of the redirections must be
+			// refused with an exception; whatever else happens instead (other
+			// than a panic) has that one cause.
+			if len(m.allowed) == 1 && (m.allowed[0].Exc == "bad-fd" || m.allowed[0].Exc == "open-failed") {
+				p.rejected = m.allowed[0].tag
+			}
+			return p
+		}
+		// judge handles the answer to one case; it returns true when the worker is gone.
+		judge := func(l *vk.Local, w *c42Worker, p *prep, st int, resp string) bool {
+			idx, src, m := p.idx, p.src, p.m
+			switch st {
+			case c42StHang:
+				dropWorker(l)
+				site, blocked := c42Blocked(resp)
+				how := fmt.Sprintf("never answered: all its threads were asleep and it used no CPU for %d s", c42IdleSeconds)
+				if strings.HasPrefix(resp, "BUSY") {
+					how = fmt.Sprintf("had not answered after %d s", c42BusySeconds)
 				}
 				mu.Lock()
-				skip := skipHangs[m.hangKey] || hangSeen[m.hangKey] >= 3
-				bad := harnessErr != ""
+				hangSeen[m.hangKey]++
+				firstOfKey := hangSeen[m.hangKey] == 1
 				mu.Unlock()
-				if bad {
-					return
+				if firstOfKey {
+					fmt.Printf("INFO property=C42 worker %s on %q (model class %s)\n", how, src, m.hangKey)
 				}
-				if skip {
-					c.Add("not_run:same-class-as-an-observed-hang", 1)
-					return
+				key := "hang:" + site + ":" + strings.TrimPrefix(m.hangKey, "hang:")
+				if p.rejected != "" {
+					key = "not-rejected:" + p.rejected
 				}
-				class := fmt.Sprintf("%d|%s", k.cmd, m.class)
-				expects := "the model expects " + c42Show(m.allowed)
-				if m.notJudged != "" {
-					expects = "the outcome is not judged (" + m.notJudged + "), but it must not crash or hang"
+				report(idx, key, fmt.Sprintf("%q does not return: the worker %s (goroutines: %s); %s", src, how, blocked, p.expects), src)
+				l.Case(p.class + "|hang")
+				return true
+			case c42StDied:
+				dropWorker(l)
+				msg, site := c42DeathSite(resp)
+				report(idx, "panic:"+site, fmt.Sprintf("%q crashed the process: %s in %s; %s", src, msg, site, p.expects), src)
+				l.Case(p.class + "|crash")
+				return true
+			}
+			var obs c42Obs
+			if err := json.Unmarshal([]byte(resp), &obs); err != nil || obs.Err != "" {
+				mu.Lock()
+				harnessErr = fmt.Sprintf("worker protocol: %v %s %q", err, obs.Err, resp)
+				mu.Unlock()
+				w.stop(true)
+				dropWorker(l)
+				return true
+			}
+			if obs.Bye {
+				w.stop(false)
+				dropWorker(l)
+			}
+			if obs.Panic != "" {
+				report(idx, "panic:"+obs.PanicFn, fmt.Sprintf("%q panicked: %s in %s; %s", src, obs.Panic, obs.PanicFn, p.expects), src)
+				l.Case(p.class + "|panic")
+				return obs.Bye
+			}
+			if len(obs.Leaks) > 0 {
+				report(idx, "file-left-open", fmt.Sprintf("%q: after the form finished the process still has open descriptors for %v", src, obs.Leaks), src)
+			}
+			if m.notJudged != "" {
+				c.Add("not_judged:"+m.notJudged, 1)
+				l.Case(p.class)
+				return obs.Bye
+			}
+			var best []string
+			for i, want := range m.allowed {
+				d := c42Diff(want, obs.c42Outcome, m.openedBy)
+				if i == 0 || len(d) < len(best) {
+					best = d
 				}
-				// rejected != "": the model says one of the redirections must be
-				// refused with an exception; whatever else happens instead (other
-				// than a panic) has that one cause.
-				rejected := ""
-				if len(m.allowed) == 1 && (m.allowed[0].Exc == "bad-fd" || m.allowed[0].Exc == "open-failed") {
-					rejected = m.allowed[0].tag
+				if len(d) == 0 {
+					break
 				}
-				w := getWorker(l)
-				if w == nil {
-					return
+			}
+			if len(best) > 0 {
+				key := best[0]
+				if key == "unexpected-exception" {
+					key += ":" + c42NormMsg(obs.ExcMsg)
 				}
-				t0 := time.Now()
-				st, resp := w.run(src)
-				if el := time.Since(t0); st == c42StOK {
+				// a file changed that the model never opened: a redirection after the refused one was applied
+				if p.rejected != "" && (strings.HasPrefix(key, "missing-exception") || strings.HasPrefix(key, "wrong-exception") || key == "file-content:opened-by:") {
+					key = "not-rejected:" + p.rejected
+				}
+				if m.dupOutlives {
+					// one documented behaviour is at stake in all of these cases
+					key = "duplicate-unusable-after-original-fd-redirected"
+				}
+				report(idx, key, fmt.Sprintf("%q: differs in %v; observed %s (exception %q); the model allows %s", src, best, c42Show([]c42Outcome{obs.c42Outcome}), obs.ExcMsg, c42Show(m.allowed)), src)
+			}
+			l.Case(p.class)
+			if idx%997 == 0 {
+				c.Sample(src)
+			}
+			return obs.Bye
+		}
+
+		// runRange evaluates cases[from:to]; each lane hands batches of
+		// consecutive cases to its worker (the worker answers them in order, so
+		// a crash or a hang is attributed to the first unanswered case and the
+		// rest of the batch goes to a fresh worker).
+		runRange := func(from, to, batch int, skipHangs map[string]bool) {
+			nb := (to - from + batch - 1) / batch
+			c.Parallel(nb, func(l *vk.Local, bi int) {
+				lo := from + bi*batch
+				hi := min(lo+batch, to)
+				var pend []*prep
+				for idx := lo; idx < hi; idx++ {
+					if p := prepare(idx, skipHangs); p != nil {
+						pend = append(pend, p)
+					}
+				}
+				sendFailures := 0
+				for len(pend) > 0 {
 					mu.Lock()
-					if el > maxLatency {
-						maxLatency = el
+					bad := harnessErr != ""
+					keep := pend[:0]
+					for _, p := range pend {
+						if hangSeen[p.m.hangKey] >= 3 {
+							c.Add("not_run:same-class-as-an-observed-hang", 1)
+						} else {
+							keep = append(keep, p)
+						}
 					}
+					pend = keep
 					mu.Unlock()
-				}
-				switch st {
-				case c42StHang:
-					dropWorker(l)
-					site, blocked := c42Blocked(resp)
-					how := fmt.Sprintf("never answered: all its threads were asleep and it used no CPU for %d s", c42IdleSeconds)
-					if strings.HasPrefix(resp, "BUSY") {
-						how = fmt.Sprintf("had not answered after %d s", c42BusySeconds)
+					if bad || len(pend) == 0 {
+						return
 					}
-					mu.Lock()
-					hangSeen[m.hangKey]++
-					firstOfKey := hangSeen[m.hangKey] == 1
-					mu.Unlock()
-					if firstOfKey {
-						fmt.Printf("INFO property=C42 worker %s on %q (model class %s)\n", how, src, m.hangKey)
+					if c.TimeUp() {
+						c.Capped("time budget reached before all cases were evaluated")
+						return
 					}
-					key := "hang:" + site + ":" + strings.TrimPrefix(m.hangKey, "hang:")
-					if rejected != "" {
-						key = "not-rejected:" + rejected
+					w := getWorker(l)
+					if w == nil {
+						return
 					}
-					report(idx, key, fmt.Sprintf("%q does not return: the worker %s (goroutines: %s); %s", src, how, blocked, expects), src)
-					l.Case(class + "|hang")
-					return
-				case c42StDied:
-					dropWorker(l)
-					msg, site := c42DeathSite(resp)
-					report(idx, "panic:"+site, fmt.Sprintf("%q crashed the process: %s in %s; %s", src, msg, site, expects), src)
-					l.Case(class + "|crash")
-					return
-				}
-				var obs c42Obs
-				if err := json.Unmarshal([]byte(resp), &obs); err != nil || obs.Err != "" {
-					mu.Lock()
-					harnessErr = fmt.Sprintf("worker protocol: %v %s %q", err, obs.Err, resp)
-					mu.Unlock()
-					return
-				}
-				if obs.Bye {
-					w.stop(false)
-					dropWorker(l)
-				}
-				if obs.Panic != "" {
-					report(idx, "panic:"+obs.PanicFn, fmt.Sprintf("%q panicked: %s in %s; %s", src, obs.Panic, obs.PanicFn, expects), src)
-					l.Case(class + "|panic")
-					return
-				}
-				if len(obs.Leaks) > 0 {
-					report(idx, "file-left-open", fmt.Sprintf("%q: after the form finished the process still has open descriptors for %v", src, obs.Leaks), src)
-				}
-				if m.notJudged != "" {
-					c.Add("not_judged:"+m.notJudged, 1)
-					l.Case(class)
-					return
-				}
-				var best []string
-				for i, want := range m.allowed {
-					d := c42Diff(want, obs.c42Outcome, m.openedBy)
-					if i == 0 || len(d) < len(best) {
-						best = d
+					var sb strings.Builder
+					for _, p := range pend {
+						sb.WriteString(p.src)
+						sb.WriteByte('\n')
 					}
-					if len(d) == 0 {
-						break
+					if _, err := w.in.WriteString(sb.String()); err != nil {
+						w.stop(true)
+						dropWorker(l)
+						if sendFailures++; sendFailures > 3 {
+							mu.Lock()
+							harnessErr = "cannot hand cases to a worker: " + err.Error()
+							mu.Unlock()
+							return
+						}
+						continue
 					}
-				}
-				if len(best) > 0 {
-					key := best[0]
-					if key == "unexpected-exception" {
-						key += ":" + c42NormMsg(obs.ExcMsg)
+					i := 0
+					for i < len(pend) {
+						t0 := time.Now()
+						st, resp := w.recv()
+						if el := time.Since(t0); st == c42StOK {
+							mu.Lock()
+							if el > maxLatency {
+								maxLatency = el
+							}
+							mu.Unlock()
+						}
+						gone := judge(l, w, pend[i], st, resp)
+						i++
+						if gone {
+							break
+						}
 					}
-					if rejected != "" && (strings.HasPrefix(key, "missing-exception") || strings.HasPrefix(key, "wrong-exception")) {
-						key = "not-rejected:" + rejected
-					}
-					report(idx, key, fmt.Sprintf("%q: differs in %v; observed %s (exception %q); the model allows %s", src, best, c42Show([]c42Outcome{obs.c42Outcome}), obs.ExcMsg, c42Show(m.allowed)), src)
-				}
-				l.Case(class)
-				if idx%997 == 0 {
-					c.Sample(src)
+					pend = pend[i:]
 				}
 			})
 		}
@@ -1399,14 +1496,14 @@ func TestVerifC42(t *testing.T) {
 		for phaseA < len(cases) && len(cases[phaseA].redirs) <= 1 {
 			phaseA++
 		}
-		runRange(0, phaseA, nil)
+		runRange(0, phaseA, 1, nil)
 		skip := map[string]bool{}
 		mu.Lock()
 		for k := range hangSeen {
 			skip[k] = true
 		}
 		mu.Unlock()
-		runRange(phaseA, len(cases), skip)
+		runRange(phaseA, len(cases), c42Batch, skip)
 
 		mu.Lock()
 		ws := workers
